@@ -153,8 +153,11 @@ def h_skip_tokens(skip_i: int, c0: int, shard=None) -> None:
     reject_unless(0 <= skip_i < len(SKIP_CHOICES) and 0 <= c0 < len(SKIP_ALPHABET))
     skip_i, c0 = realize(skip_i), realize(c0)
     with concrete():
+        from vf.xh import sweep_should_stop
         for k in range(0, n):
             for rest in itertools.product(SKIP_ALPHABET, repeat=k):
+                if sweep_should_stop():
+                    return
                 _skip_case(skip_i, SKIP_ALPHABET[c0] + "".join(rest))
         _skip_case(skip_i, "")
 
